@@ -99,6 +99,9 @@ func runC11(h *hx.H) {
 	// a second skeleton with empty declarations (extra semicolons) after every kind of statement
 	skel2 := strings.Fields(`syntax = "proto2" ; ; package p ; ; import "x.proto" ; ; option java_package = "y" ; ; message M { optional int32 a = 1 ; ; map < string , int32 > m = 2 ; ; reserved "zz" ; ; enum E { A = 0 ; ; } ; } service S { rpc R ( M ) returns ( M ) ; ; }`)
 	forEachLayout(skel2, trivia, 2, 3, func(s string) { check(s) })
+	// a third skeleton with message literals (every separator form, angle brackets, extension names, lists)
+	skel3 := strings.Fields(`syntax = "proto2" ; option ( o ) = { a : 1 , b : "s" ; c { d : 1 } e < f : 2 ; > g : [ 1 , 2 ] [ x . y ] : 3 , } ; message M { optional int32 f = 1 [ ( o ) = { a : 1 ; } , deprecated = true ] ; }`)
+	forEachLayout(skel3, trivia, 2, 3, func(s string) { check(s) })
 	check(build(nil))
 	for i := 0; i <= len(skel); i++ {
 		for _, v := range trivia {
